@@ -393,10 +393,31 @@ class StmtMixin:
             return [(s2, None)]
         return [(s2, sig)]
 
+    def unroll_for(self, s, st, elem_fn, n):
+        """constant trip count: the loop is executed iteration by iteration (exact, no invariant needed)"""
+        live = [(st, None)]
+        done = []
+        for it in range(n):
+            nxt = []
+            for cur, sig in live:
+                self.bind_target(s.target, elem_fn(z3.IntVal(it)), cur)
+                for s2, sg in self.exec_block(s.body, cur):
+                    if sg is None or sg[0] == "continue":
+                        nxt.append((s2, None))
+                    elif sg[0] == "break":
+                        done.append((s2, None))
+                    else:
+                        done.append((s2, sg))
+            live = nxt
+            if len(live) + len(done) > self.path_limit:
+                raise PathLimit("more than %d paths while unrolling" % self.path_limit)
+        out = list(done)
+        for cur, _ in live:
+            out += self.exec_block(s.orelse, cur) if s.orelse else [(cur, None)]
+        return out
+
     def st_For(self, s, st):
-        if self.inline_prefix:
-            self.unsupported(s, "loop inside a transparent callee")
-        k, spec = self.loop_spec(s)
+        k, spec = self.loop_spec(s) if not self.inline_prefix else (None, {})
         kname = "_k%s" % k
         it = s.iter
         target = s.target
@@ -469,6 +490,11 @@ class StmtMixin:
             else:
                 self.unsupported(s, "for over %s" % seq.ty)
         count = z3.simplify(count)
+        ccount = const_int(VInt(count))
+        if ccount is not None and ccount <= 16 and (self.inline_prefix or spec.get("unroll") or (not spec.get("inv") and ccount <= 4)):
+            return self.unroll_for(s, st, elem_fn, ccount)
+        if self.inline_prefix:
+            self.unsupported(s, "loop with symbolic trip count inside a transparent callee")
         # ---- entry: invariants with _k = 0
         entry_extra = {kname: VInt(0)}
         self.check_invs(st, spec, "inv-entry", s, k, entry_extra)
